@@ -111,7 +111,15 @@ func (x *sqlExec) ledgerRow(name string) *LedgerRow {
 // scanTable returns every visible row of a bucket table, all ledgers of the bucket, sorted by key.
 func (x *sqlExec) scanTable(def *tableDef, schema string) []rowKey {
 	set := map[rowKey]bool{}
+	if def.system {
+		for _, k := range x.sess.scan(def.simTable, "") {
+			set[k] = true
+		}
+	}
 	for _, l := range x.ledgersOfSchema(schema) {
+		if def.system {
+			break
+		}
 		for _, k := range x.sess.scan(def.simTable, l) {
 			set[k] = true
 		}
@@ -122,6 +130,8 @@ func (x *sqlExec) scanTable(def *tableDef, schema string) []rowKey {
 		}
 		if _, del := v.(tombstone); del {
 			delete(set, k)
+		} else if def.system {
+			set[k] = true
 		} else if lr := x.ledgerRow(k.Ledger); lr != nil && lr.Bucket == schema {
 			set[k] = true
 		}
@@ -136,14 +146,14 @@ func (x *sqlExec) scanTable(def *tableDef, schema string) []rowKey {
 
 func (x *sqlExec) baseRelation(ref *tableRef) (*relation, error) {
 	def := tableDefs[ref.name]
-	if def == nil {
-		return nil, unsupported("table %q", ref.name)
+	if def == nil || def.system != (ref.schema == "_system") {
+		return nil, unsupported("table %q.%q", ref.schema, ref.name)
 	}
 	schema := ref.schema
 	if schema == "" {
 		return nil, unsupported("unqualified table %q", ref.name)
 	}
-	if len(x.ledgersOfSchema(schema)) == 0 {
+	if !def.system && len(x.ledgersOfSchema(schema)) == 0 {
 		return nil, pgErr("42P01", fmt.Sprintf("relation %q.%s does not exist", schema, ref.name), "")
 	}
 	if x.schema == "" {
@@ -204,6 +214,8 @@ func (x *sqlExec) runStatement(stmt any, outer *scope) (*relation, int64, error)
 		with = s.with
 	case *updateStmt:
 		with = s.with
+	case *deleteStmt:
+		with = s.with
 	}
 	for _, c := range with {
 		r, _, err := x.runStatement(c.stmt, outer)
@@ -240,6 +252,8 @@ func (x *sqlExec) runStatement(stmt any, outer *scope) (*relation, int64, error)
 		return x.runInsert(s, outer)
 	case *updateStmt:
 		return x.runUpdate(s, outer)
+	case *deleteStmt:
+		return x.runDelete(s, outer)
 	}
 	return nil, 0, unsupported("statement %T", stmt)
 }
@@ -412,6 +426,18 @@ func (x *sqlExec) runSelectCore(s *selectStmt, outer *scope) (*relation, error) 
 			return nil, err
 		}
 	}
+	// the one aggregate supported: SELECT count(*) FROM ... [WHERE ...]
+	if len(s.cols) == 1 {
+		if f, ok := s.cols[0].e.(*eFunc); ok && f.name == "count" && len(f.args) == 1 {
+			if _, star := f.args[0].(*eStar); star {
+				name := "count"
+				if s.cols[0].alias != "" {
+					name = s.cols[0].alias
+				}
+				return &relation{cols: []string{name}, rows: []relRow{{vals: []Val{bigFromInt(int64(len(rows)))}}}}, nil
+			}
+		}
+	}
 	// projection
 	out := &relation{}
 	for ri, r := range rows {
@@ -562,13 +588,13 @@ func (x *sqlExec) returningCols(items []selItem, def *tableDef) []string {
 
 func (x *sqlExec) runInsert(s *insertStmt, outer *scope) (*relation, int64, error) {
 	def := tableDefs[s.table.name]
-	if def == nil {
-		return nil, 0, unsupported("table %q", s.table.name)
+	if def == nil || def.system != (s.table.schema == "_system") {
+		return nil, 0, unsupported("table %q.%q", s.table.schema, s.table.name)
 	}
 	if s.table.schema == "" {
 		return nil, 0, unsupported("unqualified table %q", s.table.name)
 	}
-	if len(x.ledgersOfSchema(s.table.schema)) == 0 {
+	if !def.system && len(x.ledgersOfSchema(s.table.schema)) == 0 {
 		return nil, 0, pgErr("42P01", fmt.Sprintf("relation %q.%s does not exist", s.table.schema, s.table.name), "")
 	}
 	if x.schema == "" {
@@ -661,7 +687,7 @@ func (x *sqlExec) runInsert(s *insertStmt, outer *scope) (*relation, int64, erro
 		if err != nil {
 			return nil, 0, err
 		}
-		if lr := x.ledgerRow(k.Ledger); lr == nil || lr.Bucket != s.table.schema {
+		if lr := x.ledgerRow(k.Ledger); !def.system && (lr == nil || lr.Bucket != s.table.schema) {
 			// a row for a ledger that does not live in this bucket: the real table would accept it; the
 			// simulation has no place to keep it
 			return nil, 0, unsupported("insert of a row of ledger %q into bucket %q", k.Ledger, s.table.schema)
@@ -973,6 +999,62 @@ func (x *sqlExec) runUpdate(s *updateStmt, outer *scope) (*relation, int64, erro
 	return out, affected, nil
 }
 
+// ---------- DELETE ----------
+
+func (x *sqlExec) runDelete(s *deleteStmt, outer *scope) (*relation, int64, error) {
+	rel, err := x.baseRelation(&s.table)
+	if err != nil {
+		return nil, 0, err
+	}
+	def := rel.def
+	var matches []relRow
+	for _, r := range rel.rows {
+		ok := Val(true)
+		if s.where != nil {
+			ok, err = x.eval(s.where, &scope{binds: []*binding{bindingOf(rel, r)}, outer: outer})
+			if err != nil {
+				return nil, 0, err
+			}
+		}
+		if isTrue(ok) {
+			matches = append(matches, r)
+		}
+	}
+	var keys []rowKey
+	for _, m := range matches {
+		keys = append(keys, *m.src)
+	}
+	if err := x.lockAll(keys); err != nil {
+		return nil, 0, err
+	}
+	out := &relation{cols: x.returningCols(s.returning, def)}
+	for _, m := range matches {
+		for _, u := range def.uniqKeys(m.vals, *m.src) {
+			if u.aux != *m.src {
+				x.put(u.aux, tombstone{})
+			}
+		}
+		x.put(*m.src, tombstone{})
+		if def.afterDelete != nil {
+			if err := def.afterDelete(x, def, m.vals); err != nil {
+				return nil, 0, err
+			}
+		}
+		if s.returning != nil {
+			tb := bindingOf(rel, m)
+			_, vals, err := x.project(s.returning, &scope{binds: []*binding{tb}, outer: outer}, tb)
+			if err != nil {
+				return nil, 0, err
+			}
+			out.rows = append(out.rows, relRow{vals: vals})
+		}
+	}
+	if s.returning == nil {
+		return nil, int64(len(matches)), nil
+	}
+	return out, int64(len(matches)), nil
+}
+
 // ---------- entry point from the driver ----------
 
 type sqlResult struct {
@@ -1044,6 +1126,8 @@ func describeStmt(stmt any) (verb, table string) {
 		return "insert", s.table.name
 	case *updateStmt:
 		return "update", s.table.name
+	case *deleteStmt:
+		return "delete", s.table.name
 	}
 	return "?", ""
 }
